@@ -10,6 +10,7 @@
 //   res <i> <v|e|d|x>              ordinary code resolves P_i: value / exception / drop tag / promise destructor
 //   cb <i>                         subscribe a callback awaiter (resume_fn) to F_i
 //   bs <i>                         subscribe a blocking-thread awaiter (sync_awaiter) to F_i
+//   bt <i>                         a real thread blocks in F_i.sync() (joined inside the operation that resolves F_i)
 //   bw <i>                         blocking wait on the (resolved) F_i: through the subscribed sync_awaiter, else future::wait()
 //   del <i>                        destroy F_i (resolved, not referenced any more)
 //   co <j> <H|N> <i|-> <script>    create coroutine C_j (async<T>) with a heap / non-heap (bump storage) frame; bound to P_i
@@ -76,10 +77,12 @@ static const char *cat_name[] = {"frame", "growth", "ready-queue-node", "other"}
 
 struct Blk { Cat cat; long n; };
 
-// one thread runs at a time (the fresh thread of an `f` case runs while the main thread sits in join)
-static int measuring = 0;     // > 0: inside the measured region
-static int guard = 0;         // > 0: the harness's own bookkeeping is running: not logged
-static int expect_frame = 0;  // the harness is calling a coroutine function: the next plain `new` is its frame
+// Per-thread switches; the log itself is shared (a blocking helper thread of `bt` logs into it too).
+static thread_local int measuring = 0;     // > 0: inside the measured region
+static thread_local int guard = 0;         // > 0: the harness's own bookkeeping is running: not logged
+static thread_local bool in_hook = false;  // the log's own containers allocate
+static thread_local int expect_frame = 0;  // the harness is calling a coroutine function: the next plain `new` is its frame
+static std::mutex *mtx = nullptr;
 static std::vector<std::string> *evs = nullptr;
 static std::map<void *, Blk> *live = nullptr;
 
@@ -87,9 +90,13 @@ struct hguard {
     hguard() { ++guard; }
     ~hguard() { --guard; }
 };
+struct hook {
+    hook() { in_hook = true; mtx->lock(); }
+    ~hook() { mtx->unlock(); in_hook = false; }
+};
 
 static void tok(const char *s) {
-    hguard g;
+    hook h;
     evs->push_back(s);
 }
 static void tokf(const char *fmt, int a, const char *b, long c = 0) {
@@ -98,24 +105,25 @@ static void tokf(const char *fmt, int a, const char *b, long c = 0) {
     tok(buf);
 }
 
-static void note_alloc(void *p, Cat c, long n) {
-    hguard g;
+// record a block; logged as an event when `log`
+static void note_alloc(void *p, Cat c, long n, bool log) {
+    hook h;
     (*live)[p] = Blk{c, n};
-    evs->push_back(std::string("a:") + cat_name[c] + "+" + std::to_string(n));
+    if (log) evs->push_back(std::string("a:") + cat_name[c] + "+" + std::to_string(n));
 }
 
 static void *do_new(std::size_t sz, bool array) {
     void *p = std::malloc(sz ? sz : 1);
     if (!p) throw std::bad_alloc();
-    if (measuring > 0 && guard == 0) {
+    if (!in_hook && live && measuring > 0 && guard == 0) {
         if (array) {
-            if (sz % sizeof(void *) == 0) note_alloc(p, GROWTH, (long)(sz / sizeof(void *)));
-            else note_alloc(p, OTHER, (long)sz);
+            if (sz % sizeof(void *) == 0) note_alloc(p, GROWTH, (long)(sz / sizeof(void *)), true);
+            else note_alloc(p, OTHER, (long)sz, true);
         } else if (expect_frame > 0) {
             --expect_frame;
-            note_alloc(p, FRAME, 1);
+            note_alloc(p, FRAME, 1, true);
         } else {
-            note_alloc(p, OTHER, (long)sz);
+            note_alloc(p, OTHER, (long)sz, true);
         }
     }
     return p;
@@ -123,11 +131,12 @@ static void *do_new(std::size_t sz, bool array) {
 
 static void do_delete(void *p) noexcept {
     if (!p) return;
-    if (live && guard == 0) {
-        hguard g;
+    if (!in_hook && live) {
+        hook h;
         auto it = live->find(p);
         if (it != live->end()) {
-            if (measuring > 0) evs->push_back(std::string("f:") + cat_name[it->second.cat] + "-" + std::to_string(it->second.n));
+            if (measuring > 0 && guard == 0)
+                evs->push_back(std::string("f:") + cat_name[it->second.cat] + "-" + std::to_string(it->second.n));
             live->erase(it);
         }
     }
@@ -144,12 +153,9 @@ struct tag_alloc {
     T *allocate(std::size_t n) {
         void *p = std::malloc(n * sizeof(T));
         if (!p) throw std::bad_alloc();
-        if (guard == 0 && live) {
-            // tracked even outside the measured region (the main thread's queue is rebuilt before every case), so that
-            // releasing such a block inside the region is seen
-            if (measuring > 0) note_alloc(p, RQ, (long)(n * sizeof(T)));
-            else { hguard g; (*live)[p] = Blk{RQ, (long)(n * sizeof(T))}; }
-        }
+        // tracked even outside the measured region (the main thread's queue is rebuilt before every case), so that
+        // releasing such a block inside the region is seen
+        if (!in_hook && live) note_alloc(p, RQ, (long)(n * sizeof(T)), measuring > 0 && guard == 0);
         return static_cast<T *>(p);
     }
     void deallocate(T *p, std::size_t) noexcept { do_delete(p); }
@@ -276,10 +282,18 @@ struct Runner {
         future<VT> *f = nullptr;      // constructed in `store`
         promise<VT> p;
         bool existed = false;
-        // awaiters living outside coroutines
-        std::vector<std::unique_ptr<awaiter>> cbs;
-        std::vector<std::unique_ptr<sync_awaiter>> syncs;
+        // awaiters living outside coroutines: raw storage owned by the harness, objects constructed inside the measured region
+        struct slot { alignas(sync_awaiter) unsigned char b[sizeof(sync_awaiter)]; };
+        std::vector<std::unique_ptr<slot>> cb_store, sync_store;
+        std::vector<awaiter *> cbs;
+        std::vector<sync_awaiter *> syncs;
         std::size_t sync_waited = 0;
+        // a real thread blocked in future::sync()
+        std::vector<std::unique_ptr<std::thread>> blocked;
+        ~Fut() {
+            for (auto *a : cbs) a->~awaiter();
+            for (auto *a : syncs) a->~sync_awaiter();
+        }
     };
     struct Co {
         std::vector<Act> script;
@@ -469,13 +483,16 @@ struct Runner {
     std::string op_cb(int i) {
         Fut &f = futs[i];
         if (!f.f) return "skip";
-        awaiter *a;
+        void *mem;
         {
             al::hguard g;
-            f.cbs.emplace_back(new awaiter(&cb_fn, reinterpret_cast<void *>(static_cast<std::intptr_t>(i))));
-            a = f.cbs.back().get();
+            f.cb_store.emplace_back(new typename Fut::slot());
+            mem = f.cb_store.back()->b;
+            f.cbs.reserve(f.cbs.size() + 1);
         }
         measured m;
+        awaiter *a = new (mem) awaiter(&cb_fn, reinterpret_cast<void *>(static_cast<std::intptr_t>(i)));
+        f.cbs.push_back(a);
         co_awaiter<future<VT>> aw(*f.f);
         if (aw.await_ready()) return "ready";
         return aw.subscribe(a) ? "sub" : "ready";
@@ -484,20 +501,58 @@ struct Runner {
     std::string op_bs(int i) {
         Fut &f = futs[i];
         if (!f.f) return "skip";
-        sync_awaiter *a;
+        void *mem;
         {
             al::hguard g;
-            f.syncs.emplace_back(new sync_awaiter());
-            a = f.syncs.back().get();
+            f.sync_store.emplace_back(new typename Fut::slot());
+            mem = f.sync_store.back()->b;
+            f.syncs.reserve(f.syncs.size() + 1);
         }
         measured m;
         co_awaiter<future<VT>> aw(*f.f);
-        if (aw.await_ready() || !aw.subscribe(a)) {
-            al::hguard g;
-            f.syncs.pop_back();
+        if (aw.await_ready()) return "ready";
+        sync_awaiter *a = new (mem) sync_awaiter();     // what co_awaiter::sync() puts on the blocking thread's stack
+        if (!aw.subscribe(a)) {
+            a->~sync_awaiter();
             return "ready";
         }
+        f.syncs.push_back(a);
         return "sub";
+    }
+
+    // a real thread blocks in future::sync(); the operation returns once its awaiter is in the chain
+    struct peek : future<VT> {
+        static awaiter *head(future<VT> &f) { return static_cast<peek &>(f)._awaiter.load(std::memory_order_acquire); }
+    };
+    std::string op_bt(int i) {
+        Fut &f = futs[i];
+        if (!f.f) return "skip";
+        if (f.f->ready()) {
+            measured m;
+            f.f->sync();
+            return "ready";
+        }
+        awaiter *before = peek::head(*f.f);
+        future<VT> *fp = f.f;
+        {
+            al::hguard g;
+            f.blocked.emplace_back(new std::thread([fp] {
+                ++al::measuring;
+                fp->sync();
+                --al::measuring;
+            }));
+        }
+        while (peek::head(*f.f) == before) std::this_thread::yield();
+        return "sub";
+    }
+    // after every operation: a blocked thread whose future has been resolved finishes inside that operation's line
+    void join_woken(bool all) {
+        for (auto &f : futs) {
+            if (f.blocked.empty() || !(all || !f.f || f.f->ready())) continue;
+            al::hguard g;
+            for (auto &t : f.blocked) t->join();
+            f.blocked.clear();
+        }
     }
 
     std::string op_bw(int i) {
@@ -511,7 +566,7 @@ struct Runner {
 
     std::string op_del(int i) {
         Fut &f = futs[i];
-        if (!f.f || f.f->pending()) return "skip";
+        if (!f.f || f.f->pending() || !f.blocked.empty()) return "skip";
         measured m;
         f.f->~future();
         f.f = nullptr;
@@ -649,8 +704,9 @@ struct Runner {
         for (auto &c : cos) if (c.st != UNBORN && c.st != DONE) left++;
         for (int g = 0; g < MAXID; g++)
             if (gens[g].exists) { gens[g].g = generator<int>(); gens[g].exists = false; }
+        join_woken(false);
         for (int i = 0; i < MAXID; i++)
-            if (futs[i].f && !futs[i].f->pending()) { futs[i].f->~future(); futs[i].f = nullptr; }
+            if (futs[i].f && !futs[i].f->pending() && futs[i].blocked.empty()) { futs[i].f->~future(); futs[i].f = nullptr; }
         al::hguard g;
         return "left=" + std::to_string(left);
     }
@@ -668,6 +724,7 @@ struct Runner {
                      std::strchr("vedx", w[2][0])) head = op_res(a, w[2][0]);
             else if (k == "cb" && w.size() == 2 && to_nat(w[1], a) && a < MAXID) head = op_cb(a);
             else if (k == "bs" && w.size() == 2 && to_nat(w[1], a) && a < MAXID) head = op_bs(a);
+            else if (k == "bt" && w.size() == 2 && to_nat(w[1], a) && a < MAXID) head = op_bt(a);
             else if (k == "bw" && w.size() == 2 && to_nat(w[1], a) && a < MAXID) head = op_bw(a);
             else if (k == "del" && w.size() == 2 && to_nat(w[1], a) && a < MAXID) head = op_del(a);
             else if (k == "co" && w.size() == 5 && to_nat(w[1], a) && a < MAXID && (w[2] == "H" || w[2] == "N")) {
@@ -691,13 +748,15 @@ struct Runner {
                      to_nat(w[3], b)) head = op_gen(a, w[2] == "H", b);
             else if (k == "gs" && w.size() == 3 && to_nat(w[1], a) && a < MAXID && (w[2] == "n" || w[2] == "f")) head = op_gs(a, w[2][0]);
             else if (k == "gd" && w.size() == 2 && to_nat(w[1], a) && a < MAXID) head = op_gd(a);
-            else if (k == "end" && w.size() == 1) { end_head = op_end(); continue; }
+            else if (k == "end" && w.size() == 1) { end_head = op_end(); join_woken(false); continue; }
+            join_woken(false);
             flush_line(k + " " + head, out);
         }
     }
     std::string end_head = "left=?";
 
     static void flush_line(const std::string &head, std::vector<std::string> &out) {
+        al::hook hk;
         std::string s = head;
         if (!al::evs->empty()) {
             s += " ;";
@@ -734,14 +793,12 @@ static void run_case(std::vector<std::string> &lines, bool fresh, std::vector<st
     };
     std::string eh;
     if (fresh) {
-        ++al::guard;            // thread creation itself allocates: not part of the program
+        al::hguard g;           // thread creation itself allocates: not part of the program
         std::thread t([&] {
-            --al::guard;
             eh = work(false);
             ++al::measuring;    // the thread's exit (destructor of its thread-local ready queue) is measured too
         });
         t.join();
-        --al::measuring;
     } else {
         eh = work(true);
     }
@@ -750,6 +807,7 @@ static void run_case(std::vector<std::string> &lines, bool fresh, std::vector<st
 
 int main() {
     std::ios::sync_with_stdio(false);
+    al::mtx = new std::mutex();
     al::evs = new std::vector<std::string>();
     al::live = new std::map<void *, al::Blk>();
     std::string line;
@@ -783,5 +841,6 @@ int main() {
     auto *l = al::live;
     al::live = nullptr;
     delete l;
+    delete al::mtx;
     return 0;
 }
